@@ -37,7 +37,7 @@ static std::string zpack(const std::string &in, int wbits) {
 // LZMA-alone with properties that differ between connections (lc/lp/pb and dictionary size are in the 13 header bytes)
 static std::string lzpack(const std::string &in, int variant) {
 #if C19_HAVE_LZMA
-    lzma_options_lzma opt; if (lzma_lzma_preset(&opt, 1)) return ""; opt.dict_size = 4096u << (variant % 4); opt.lc = (uint32_t)(variant % 4); opt.lp = (uint32_t)((variant / 4) % 2); opt.pb = (uint32_t)((variant / 2) % 3);
+    lzma_options_lzma opt; if (lzma_lzma_preset(&opt, 1)) return ""; opt.dict_size = variant >= 100 ? (1u << 21) : 4096u << (variant % 4); /* variant >= 100: a dictionary beyond the default memory limit (the decoder refuses: "memory limit reached") */ opt.lc = (uint32_t)(variant % 4); opt.lp = (uint32_t)((variant / 4) % 2); opt.pb = (uint32_t)((variant / 2) % 3);
     lzma_stream s = LZMA_STREAM_INIT; if (lzma_alone_encoder(&s, &opt) != LZMA_OK) return "";
     std::string out(in.size() + in.size() / 3 + 4096, '\0'); s.next_in = (const uint8_t *)in.data(); s.avail_in = in.size(); s.next_out = (uint8_t *)&out[0]; s.avail_out = out.size();
     lzma_ret rc = lzma_code(&s, LZMA_FINISH); out.resize(rc == LZMA_STREAM_END ? s.total_out : 0); lzma_end(&s); return out;
@@ -64,7 +64,8 @@ static Conn gen_conn(int idx) {
         add_stream(c, "POST /up/" + tag + "?x=%41&y=" + tag + " HTTP/1.1\r\nHost: " + tag + ".example\r\nCookie: id=" + tag + "\r\nContent-Type: multipart/form-data; boundary=" + b + "\r\nContent-Length: " + std::to_string(body.size()) + "\r\n\r\n" + body, '>'); add_stream(c, "HTTP/1.1 200 OK\r\nContent-Length: 2\r\n\r\nok", '<'); c.label = "multipart"; }
     else if (k == 3) { std::string body = "a=" + tag + "&b=%u0041%zz+&c"; add_stream(c, "POST /f/" + tag + "/../x\\y?q=" + tag + " HTTP/1.1\r\nHost: " + tag + ".example:81\r\nAuthorization: Basic dXNlcjpwYXNz\r\nContent-Type: application/x-www-form-urlencoded\r\nContent-Length: " + std::to_string(body.size()) + "\r\n\r\n" + body, '>'); add_stream(c, "HTTP/1.1 404 Not Found\r\nTransfer-Encoding: chunked\r\n\r\n3\r\n" + std::string("abc") + "\r\n0\r\n\r\n", '<'); c.label = "urlencoded"; }
     else if (k == 4 || k == 6) { std::string plain; int n = rcx::range(1, 30); for (int i = 0; i < n; i++) plain += tag + std::string((size_t)rcx::range(1, 200), (char)('a' + idx)); int w = rcx::range(0, C19_HAVE_LZMA ? 4 : 2); if (w > 3) w = 3;
-        std::string body = w == 3 ? lzpack(plain, idx + rcx::range(0, 7)) : zpack(plain, w == 0 ? 31 : w == 1 ? -15 : 15); bool two = (w != 3) && rcx::chance(1, 4); if (two) body = zpack(body, 31);
+        bool bigdict = w == 3 && rcx::chance(1, 3); if (bigdict) { std::string unit = plain; while (plain.size() < 40000) plain += unit; } // more output than a small lzma_memlimit lets the dictionary buffer grow to
+        std::string body = w == 3 ? lzpack(plain, idx + rcx::range(0, 7) + (bigdict ? 100 : 0)) : zpack(plain, w == 0 ? 31 : w == 1 ? -15 : 15); bool two = (w != 3) && rcx::chance(1, 4); if (two) body = zpack(body, 31);
         add_stream(c, "GET /z/" + tag + " HTTP/1.1\r\nHost: " + tag + ".example\r\n\r\n", '>'); add_stream(c, std::string("HTTP/1.1 200 OK\r\nContent-Encoding: ") + (w == 3 ? "lzma" : w == 0 ? "gzip" : "deflate") + (two ? ", gzip" : "") + "\r\nContent-Length: " + std::to_string(body.size()) + "\r\n\r\n" + body, '<'); c.label = w == 3 ? "coded_body_lzma" : "coded_body"; }
     else if (k == 7) { // chunked both ways with extensions and trailers, repeated and folded header fields
         std::string rb, sb; int n = rcx::range(1, 5); for (int i = 0; i < n; i++) { std::string d = tag + std::string((size_t)rcx::range(1, 40), (char)('k' + idx)); char h[32]; snprintf(h, sizeof h, "%zx", d.size()); rb += std::string(h) + (rcx::coin() ? ";ext=" + tag : "") + "\r\n" + d + "\r\n"; sb += std::string(rcx::coin() ? "0" : "") + h + "\r\n" + d + "\r\n"; }
@@ -81,13 +82,17 @@ static Conn gen_conn(int idx) {
         add_stream(c, "POST /" + std::string((size_t)rcx::range(10, 2500), 'p') + "/" + tag + " HTTP/1.0\r\nContent-Length: " + std::to_string(tag.size()) + "\r\n\r\n" + tag, '>');
         add_stream(c, "HTTP/1.0 200 OK\r\nContent-Type: text/plain\r\n\r\n" + std::string((size_t)rcx::range(0, 3000), (char)('A' + idx)) + tag, '<'); c.label = "close_delimited"; }
     else { static const char *WIDE[] = {"%c4%80", "%e2%82%ac", "%ef%bc%8f", "\xc5\x81", "%e2%88%95", "%ef%bc%a1", "%f0%9f%98%80", "%u0141", "%uff0f"}; std::string wide; int nw = rcx::range(1, 4); for (int i = 0; i < nw; i++) wide += std::string("/") + WIDE[rcx::range(0, 8)] + tag; // code points >= U+0100: the best-fit mapping is consulted
-        add_stream(c, "GET /%c3%a9" + wide + "/" + tag + "/%u00e9?" + tag + "=\xc3\xa9 HTTP/1.1\r\nHost: " + tag + ".EXAMPLE.\r\nX-Long: " + std::string((size_t)rcx::range(10, 3000), 'x') + "\r\n folded\r\n\r\nGARBAGE " + tag + "\r\n", '>'); add_stream(c, "HTTP/1.1 200 OK\r\nContent-Length: 3\r\n\r\nabcHTTP/1.1 500\r\n\r\n", '<'); c.label = "utf8_bestfit_malformed"; }
+        // the same unmapped %u code points in a query parameter (URLENCODED context) and in userinfo / fragment (other contexts): each context has its own replacement byte
+        static const char *UNM[] = {"%u4e2d", "%u0bf5", "%u4e2d%u0141", "%uabcd"}; std::string um = UNM[rcx::range(0, 3)], q2 = rcx::coin() ? "&w=caf" + um : "", frag = rcx::coin() ? "#frag" + um : ""; bool absu = rcx::chance(1, 3);
+        add_stream(c, std::string("GET ") + (absu ? "http://us" + um + "er@" + tag + ".example" : "") + "/%c3%a9" + wide + "/" + tag + "/%u00e9?" + tag + "=\xc3\xa9" + q2 + frag + " HTTP/1.1\r\nHost: " + tag + ".EXAMPLE.\r\nX-Long: " + std::string((size_t)rcx::range(10, 3000), 'x') + "\r\n folded\r\n\r\nGARBAGE " + tag + "\r\n", '>'); add_stream(c, "HTTP/1.1 200 OK\r\nContent-Length: 3\r\n\r\nabcHTTP/1.1 500\r\n\r\n", '<'); c.label = "utf8_bestfit_malformed"; }
     c.ops.push_back(vdrv::Op{'C', "", 0});
     return c;
 }
 static Case gen_case() {
     Case c; c.cfg.personality = rcx::range(0, 9); c.cfg.auto_destroy = rcx::coin(); c.cfg.req_decomp = rcx::coin(); c.cfg.extract = rcx::chance(1, 4);
     if (rcx::chance(1, 3)) { c.cfg.dec.push_back(vdrv::DecSet{0, vdrv::DK_U_DECODE, 1}); c.cfg.dec.push_back(vdrv::DecSet{0, vdrv::DK_UTF8_BESTFIT, 1}); }
+    if (rcx::chance(1, 3)) { c.cfg.dec.push_back(vdrv::DecSet{1, vdrv::DK_U_DECODE, 1}); c.cfg.dec.push_back(vdrv::DecSet{2, vdrv::DK_U_DECODE, 1}); c.cfg.dec.push_back(vdrv::DecSet{1, vdrv::DK_REPLACEMENT_BYTE, '*'}); c.cfg.dec.push_back(vdrv::DecSet{2, vdrv::DK_REPLACEMENT_BYTE, '!'}); } // per-context replacement bytes
+    if (rcx::chance(1, 3)) c.cfg.lzma_mem = 16384; // LZMA bodies with a larger dictionary and more output than this hit "memory limit reached" on their own connection only
     int k = rcx::range(2, 8); for (int i = 0; i < k; i++) c.conns.push_back(gen_conn(i));
     // merged schedule: -1-i = create parser i, i = next op of connection i (creation precedes its first op; creation points are generated)
     std::vector<size_t> left(k); size_t total = 0; for (int i = 0; i < k; i++) { left[i] = c.conns[i].ops.size(); total += left[i]; }
